@@ -106,10 +106,17 @@ GUARDS = {
     # the generic code also reports the renamed parent, InterDirStateTree does not (without
     # include_unchanged neither reports it)
     "filter_unchanged_parent": True,
-    # bzr (C10): with a path filter, InterDirStateTree also reports the entry that occupied
-    # (in the source) the new path of a reported entry; the generic code reports it only for
-    # directories (parents), so its filtered result puts two entries on one path
-    "filter_path_occupant": True,
+    # bzr (C10, also visible as partial commits / reverts that take in more than selected):
+    # with a path filter, InterDirStateTree follows paths rather than ids and also reports
+    # real changes of entries that merely sit (in either tree) at or around a path related to
+    # a selected entry - e.g. the old occupant of a selected entry's new path, or a new
+    # directory (and its children) that took over the old path of a renamed parent; the
+    # generic code selects by id and does not report them
+    "dirstate_filter_overinclusion": True,
+    # bzr: with a path filter that names the OLD path of a renamed directory,
+    # InterDirStateTree yields entries below it two or three times; revert of such paths
+    # then raises FileExistsError / DuplicateKey (same trans id handled twice)
+    "bzr_filter_duplicates": True,
     # git: a commit whose changes name one path twice - as the source of a guessed copy /
     # rename and as a path that stays (modified file + new file with its old content), or a
     # file <-> symlink kind change (reported as delete + add) - records the right tree but
@@ -709,6 +716,9 @@ class MTree:
         """A path filter selects more than the entries below the given paths: whatever else
         sits (in either tree) at a path of a selected entry, and every changed parent of a
         selected entry.  The model only predicts selections that need none of that."""
+        if "bzr_filter_duplicates" in self.guards:
+            if any(f in bids and f in wids and bids[f] != wids[f] for f in chosen):
+                raise Unmodelled()
         related = [bids[f] for f in chosen if f in bids] + [wids[f] for f in chosen if f in wids]
         for fid in (set(bids) | set(wids)) - chosen:
             for q in ([bids[fid]] if fid in bids else []) + ([wids[fid]] if fid in wids else []):
@@ -1095,8 +1105,8 @@ DEFAULT_WEIGHTS = {
     "add": 4,
     "smart_add": 2,
     "remove": 2,
-    "rename": 3,
-    "move": 2,
+    "rename": 4,
+    "move": 3,
     "chmod": 1,
     "symlink": 1,
     "kindchange": 1,
@@ -1110,15 +1120,18 @@ DEFAULT_WEIGHTS = {
 
 
 def make_namespace(rng):
-    """3-6 names with depth <= 3; intermediate directories are part of the namespace."""
+    """3-6 paths of depth <= 3, grown as a tree (every path's parent is the root or another
+    path of the namespace) so that directories with several children are common."""
     names = ["a", "b", "c", "d", "e"]
-    out = set()
     want = rng.randint(3, 6)
+    out = []
     while len(out) < want:
-        depth = rng.choice([1, 1, 2, 2, 3])
-        p = "/".join(rng.choice(names) for _ in range(depth))
-        out.add(p)
-        out.update(a for a in ancestors(p) if a)
+        parents = [""] + [p for p in out if p.count("/") < 2]
+        par = rng.choice(parents[-3:] if rng.random() < 0.5 else parents)
+        name = rng.choice(names)
+        p = par + "/" + name if par else name
+        if p not in out:
+            out.append(p)
     return sorted(out)
 
 
@@ -1144,15 +1157,31 @@ class Gen:
         seq = sorted(seq)
         return self.rng.choice(seq) if seq else None
 
+    def pick_source(self):
+        """A versioned path to rename / move; directories with versioned contents are
+        preferred half of the time."""
+        m = self.m
+        vs = [p for p in m.versioned_paths() if p]
+        dirs = [p for p in vs if m.dkind(p) == DIR and any(strictly_inside(p, q) for q in m.versioned_paths())]
+        big = [p for p in dirs if len(m.inv_below(p)) >= 2]
+        if big and self.rng.random() < 0.6:
+            return self.pick(big)
+        if dirs and self.rng.random() < 0.5:
+            return self.pick(dirs)
+        return self.pick(vs)
+
     def new_path(self):
-        """A namespace path that can be created on disk now."""
-        return self.pick([p for p in self.names if self.m.can_create(p)])
+        """A namespace path that can be created on disk now (deeper ones preferred)."""
+        c = [p for p in self.names if self.m.can_create(p)]
+        deep = [p for p in c if "/" in p]
+        return self.pick(deep if deep and self.rng.random() < 0.6 else c)
 
     def propose(self, kind):
         m, rng = self.m, self.rng
         if kind == "write":
             cands = [p for p in self.names if m.can_create(p) or m.dkind(p) == FILE]
-            p = self.pick(cands)
+            deep = [p for p in cands if "/" in p and m.can_create(p)]
+            p = self.pick(deep if deep and self.rng.random() < 0.4 else cands)
             return p and {"o": "write", "p": p, "n": self.fresh()}
         if kind == "mkdir_disk":
             p = self.new_path()
@@ -1197,14 +1226,21 @@ class Gen:
             keep = rng.random() < 0.5
             return {"o": "remove", "p": p, "keep": keep, "force": (not keep) and rng.random() < 0.5}
         if kind == "rename":
-            a = self.pick([p for p in m.versioned_paths() if p])
+            a = self.pick_source()
             if not a:
                 return None
-            cands = [p for p in self.names if not inside(a, p) and not m.is_versioned(p)]
+            # any free name (a..e) in an existing directory, depth <= 3
+            dirs = [""] + [d for d in m.disk if m.dkind(d) == DIR and d.count("/") < 2 and not inside(a, d)]
+            if m.flavour == "bzr":
+                dirs = [d for d in dirs if d in m.inv]
+            cands = [posixpath.join(d, n) if d else n for d in dirs for n in "abcde"]
+            cands = [p for p in cands if p not in m.disk and not m.is_versioned(p)]
+            if not a in m.disk:
+                cands = [p for p in self.names if not inside(a, p) and not m.is_versioned(p) and p in m.disk]
             b = self.pick(cands)
             return b and {"o": "rename", "p": a, "to": b}
         if kind == "move":
-            a = self.pick([p for p in m.versioned_paths() if p])
+            a = self.pick_source()
             if not a:
                 return None
             d = self.pick([d for d in m.versioned_paths() if m.dkind(d) == DIR and not inside(a, d) and d != parent(a)])
@@ -1282,9 +1318,31 @@ def gen_ops(rng, model, n, weights, names=None):
     pool = [k for k, w in sorted(weights.items()) for _ in range(int(w))] or ["write"]
     ops = []
     tries = 0
+    # most runs start by growing a tree (so that later operations meet directories with
+    # several versioned children), then version it in one go and sometimes commit it
+    script = []
+    if rng.random() < 0.7:
+        k = min(max(2, n // 3), len(names))
+        script = [rng.choice(["write", "write", "write", "mkdir", "mkdir_disk", "symlink"]) for _ in range(k)]
+        script.append("smart_add_root")
+        if rng.random() < 0.6:
+            script.append("commit_all")
     while len(ops) < n and tries < n * 30:
         tries += 1
         kind = rng.choice(pool)
+        if script:
+            kind = script.pop(0)
+            if kind == "smart_add_root":
+                op = {"o": "smart_add", "p": "", "n": g.fresh()}
+            elif kind == "commit_all":
+                k2 = g.fresh()
+                op = {"o": "commit", "paths": None, "rev": "rev-%d" % k2, "t": 1700000000 + k2}
+            else:
+                op = g.propose(kind)
+            if op and model.classify(op) == "ok":
+                model.apply(op)
+                ops.append(op)
+            continue
         if not model.disk and kind not in ("write", "mkdir", "mkdir_disk", "symlink"):
             kind = rng.choice(["write", "write", "mkdir", "mkdir_disk"])
         op = g.propose(kind)
@@ -1323,6 +1381,18 @@ def quiet():
     lg.propagate = False
 
 
+def settle_randomness(seed):
+    """Per-process lazy consumers of OS randomness (tempfile's name generator re-seeds itself
+    after a fork, at its first use) would shift the deterministic getrandom stream of
+    whichever run happens to come first in a worker: trigger them, then restart the stream."""
+    import tempfile
+
+    from simkit import batch
+
+    tempfile._get_candidate_names().rng  # noqa: B018 - property with the side effect
+    batch._reseed(seed)
+
+
 def tree_url(root, flavour):
     return ("sim+file://" + root) if flavour == "bzr" else root
 
@@ -1358,13 +1428,26 @@ def reopen(tree):
     return open_tree(root, flavour)
 
 
+_VOLATILE = None
+
+
 def relativise_log(sim, root):
-    """Scratch paths embed pids: keep them out of the event log (and so of the digest)."""
+    """Keep out of the event log (and so of the digest) what is not a function of
+    (seed, plan): scratch paths embed pids; the random parts of lock and upload names come
+    from per-thread generators of a dozen extension modules, each seeded from the
+    deterministic getrandom stream in an order that depends on which process-wide lazy
+    initialisations already happened (measured: `is_url` draws only on first use)."""
+    global _VOLATILE
+    import re
+
+    if _VOLATILE is None:
+        _VOLATILE = re.compile(r"(?<=/lock/)[a-z0-9]{10}(?=\.tmp)|(?<=/releasing\.)[a-z0-9]{20}(?=\.tmp)|(?<=/upload/)[a-z0-9]{20}(?=\.)")
     orig = sim.event
     base = os.path.dirname(root)
+    sub = _VOLATILE.sub
 
     def event(*fields, vol=None):
-        orig(*[str(f).replace(base, "<S>") for f in fields], vol=vol)
+        orig(*[sub("~", str(f).replace(base, "<S>")) for f in fields], vol=vol)
 
     sim.event = event
 
